@@ -793,7 +793,10 @@ def material_diffs(mat, want, atts):
 
 def rand_wall():
     lo = dy(-400, 0)
-    return {"numpoints": int(rng.integers(2, 12)), "xmin": lo, "xmax": lo + dy(1, 800), "z": dy(-40, 400)}
+    w = {"numpoints": int(rng.integers(2, 12)), "xmin": lo, "xmax": lo + dy(1, 800), "z": dy(-40, 400)}
+    if rng.random() < 0.4:
+        w["y"] = dy(-40, 40)          # the optional entry of a wall: its own y (default 0), independent of the other wall
+    return w
 
 
 def wall_diffs(w, conf, name):
@@ -803,8 +806,8 @@ def wall_diffs(w, conf, name):
     out = []
     if len(x) != conf["numpoints"] or x[0] != conf["xmin"] or x[-1] != conf["xmax"]:
         out.append(("x", [len(x), float(x[0]), float(x[-1])], conf))
-    if not (np.all(z == conf["z"]) and np.all(y == 0.0)):
-        out.append(("yz", float(z[0]), conf["z"]))
+    if not (np.all(z == conf["z"]) and np.all(y == conf.get("y", 0.0))):
+        out.append(("yz", [float(y[0]), float(z[0])], [conf.get("y", 0.0), conf["z"]]))
     if w.points.name != name:
         out.append(("name", w.points.name, name))
     if not np.array_equal(x, np.linspace(conf["xmin"], conf["xmax"], conf["numpoints"])):
